@@ -1660,3 +1660,82 @@ Proof.
   destruct (rt_frame t [c]) as [t'|e]; cbn [res_map] in H; [|discriminate].
   injection H as H. rewrite H. apply tree_eqb_refl.
 Qed.
+
+(* ---------------------------------------------------------------------------------------------- *)
+(* exports from an inner start node of a Node tree: the paths of the exported nodes are distinct *)
+
+Lemma subtree_pre_incl p : forall root t, subtree_at root p = Some t -> incl (pre t) (pre root).
+Proof.
+  induction p as [|i p IH]; intros root t H.
+  - cbn in H. injection H as ->. apply incl_refl.
+  - cbn [subtree_at] in H. destruct (nth_error (tkids root) i) as [k|] eqn:E; [|discriminate].
+    intros x Hx. apply (IH k t H) in Hx. destruct root as [g n a ks]. cbn [pre tkids] in *. right.
+    apply in_flat_map. exists k. split; [eapply nth_error_In; exact E|exact Hx].
+Qed.
+
+Lemma valid_subtree root p t : valid_tree root = true -> subtree_at root p = Some t -> valid_tree t = true.
+Proof.
+  unfold valid_tree. intros Hv Hs. apply forallb_forall. intros x Hx. rewrite forallb_forall in Hv.
+  apply Hv. eapply subtree_pre_incl; eassumption.
+Qed.
+
+Lemma names_clean_subtree c root p t : names_clean c root -> subtree_at root p = Some t -> names_clean c t.
+Proof.
+  unfold names_clean. intros Hc Hs. apply Forall_forall. intros x Hx. rewrite Forall_forall in Hc.
+  apply Hc. eapply subtree_pre_incl; eassumption.
+Qed.
+
+Lemma anc_names_clean c p : forall root t, names_clean c root -> subtree_at root p = Some t ->
+  Forall (clean c) (anc_names root p).
+Proof.
+  induction p as [|i p IH]; intros root t Hc Hs; [constructor|].
+  rewrite anc_names_cons. cbn [subtree_at] in Hs.
+  destruct (nth_error (tkids root) i) as [k|] eqn:E; [|discriminate].
+  destruct root as [g n a ks]. apply names_clean_inv in Hc as [Hn Hks]. cbn [tname tkids] in *.
+  constructor; [exact Hn|]. apply (IH k t); [|exact Hs]. rewrite Forall_forall in Hks. apply Hks.
+  eapply nth_error_In. exact E.
+Qed.
+
+Lemma NoDup_map_filter {A B} (f : A -> B) (p : A -> bool) l : NoDup (map f l) -> NoDup (map f (filter p l)).
+Proof.
+  induction l as [|x l IH]; intros H; [constructor|]. cbn [map] in H. inversion H as [|? ? Hx Hl]; subst.
+  cbn [filter]. destruct (p x); [|apply IH; exact Hl]. cbn [map]. constructor; [|apply IH; exact Hl].
+  intros Hin. apply Hx. apply in_map_iff in Hin as [y [E Hy]]. apply filter_In in Hy as [Hy _].
+  apply in_map_iff. exists y. split; assumption.
+Qed.
+
+Lemma paths_nodup_from c root p t :
+  valid_tree root = true -> sep_safe [c] root = true -> subtree_at root p = Some t ->
+  NoDup (map (c_path [c]) (nodes_under (anc_names root p) t)).
+Proof.
+  intros Hv Hs Hp. pose proof (names_clean_of c root Hv Hs) as Hc.
+  pose proof (anc_names_clean c p root t Hc Hp) as Hanc.
+  pose proof (names_clean_subtree c root p t Hc Hp) as Hct.
+  pose proof (valid_subtree root p t Hv Hp) as Hvt.
+  rewrite nodes_under_rel, map_map.
+  change (map (fun x => c_path [c] (anc_names root p ++ fst x, snd x)) (rel_nodes t))
+    with (map (fun x => path_name [c] (anc_names root p ++ fst x)) (rel_nodes t)).
+  rewrite <- (map_map fst (fun l => path_name [c] (anc_names root p ++ l))).
+  apply NoDup_map_inj_on; [|apply rel_paths_nodup; exact Hvt].
+  intros x y Hx Hy E. apply in_map_iff in Hx as [px [Ex Hx]]. apply in_map_iff in Hy as [py [Ey Hy]].
+  pose proof (rel_nodes_clean c t Hct) as Hcl. rewrite Forall_forall in Hcl.
+  pose proof (rel_nodes_nonempty t) as Hn. rewrite Forall_forall in Hn. subst x y.
+  apply (path_name_inj c) in E.
+  - apply app_inv_head in E. exact E.
+  - intros E0. apply app_eq_nil in E0 as [_ E0]. apply (Hn px Hx). exact E0.
+  - intros E0. apply app_eq_nil in E0 as [_ E0]. apply (Hn py Hy). exact E0.
+  - apply Forall_app. split; [exact Hanc|apply Hcl; exact Hx].
+  - apply Forall_app. split; [exact Hanc|apply Hcl; exact Hy].
+Qed.
+
+(* C06_dict_records for Node trees: exactly one (path, record) item per selected node, in pre-order *)
+Theorem tree_to_dict_records c root p o t :
+  valid_tree root = true -> sep_safe [c] root = true -> subtree_at root p = Some t ->
+  tree_to_dict root [c] p o
+  = Ret (map (fun x => (c_path [c] x, dict_record o x))
+             (filter (selected o) (nodes_under (anc_names root p) t))).
+Proof.
+  intros Hv Hs Hp. apply tree_to_dict_map.
+  - unfold nodes_from. rewrite Hp. reflexivity.
+  - apply NoDup_map_filter. apply paths_nodup_from; assumption.
+Qed.
